@@ -188,3 +188,50 @@ func VxC11Baseline() {
 		vx.Assert("success-only-after-directory-flush", !vx.FSDirDirty(db.LTXLevelDir(0)))
 	}
 }
+
+// VxC03Baseline: kill before every mutating operation of checkDatabaseBehindReplica
+// (the baseline fetch at start-up when the local state is behind the replica),
+// then restart: no final LTX name may map to a half-written file, and the
+// restarted process gets through init's check again - it fetches the baseline
+// anew or finds it complete - without manual intervention.
+func VxC03Baseline() {
+	dir := vx.TempDir()
+	path := dir + "/app.db"
+	vx.FSWriteFile(path, vxDBFile(vxPageSize, []uint64{11, 12}))
+	db := NewDB(path)
+	c := &vxStoreClient{}
+	for t := 1; t <= 2; t++ {
+		lf := &vxLTX{level: 0, min: ltx.TXID(t), max: ltx.TXID(t), commit: 2, ts: int64(1000 + t), pages: []vxPg{{1, uint64(t)}, {2, uint64(t)}}}
+		if t > 1 {
+			lf.pages = lf.pages[:1]
+		}
+		c.put(lf)
+	}
+	db.Replica = NewReplicaWithClient(db, c)
+	l0 := db.LTXLevelDir(0)
+	vx.FSMkdirAll(l0)
+	local := db.LTXPath(0, 2, 2)
+	vx.FSCrashAt(vx.Choose("crash", 0, 12)) // 0 = no kill
+	var err error
+	crashed := vx.FSRun(func() { err = db.checkDatabaseBehindReplica(context.Background()) })
+	if !crashed {
+		vx.Assert("uncrashed-fetch-succeeds", err == nil && vx.FSExists(local))
+	}
+	for _, name := range vx.FSList(l0) {
+		if vxIsFinalName(name) {
+			vx.Assert("final-name-is-a-complete-file", vx.FSComplete(l0+"/"+name))
+		}
+	}
+	// restart: new DB object; Open removes stale temp files; the check runs again
+	db2 := NewDB(path)
+	db2.Replica = NewReplicaWithClient(db2, c)
+	db2.MonitorInterval = 0
+	vx.Assert("restart-opens", db2.Open() == nil)
+	rerr := db2.checkDatabaseBehindReplica(context.Background())
+	vx.Assert("restart-gets-through-the-baseline-check", rerr == nil)
+	pos, perr := db2.Pos()
+	vx.Assert("restart-position-is-the-replica-position", perr == nil && pos.TXID == 2 && vx.FSComplete(local))
+	for _, name := range vx.FSList(l0) {
+		vx.Assert("restart-removes-temp-files", !strings.HasSuffix(name, ".tmp"))
+	}
+}
